@@ -134,3 +134,29 @@ PROPS["C13"] = dict(
     level_text="Generated round-trip search: every output is parsed by a strict parser written for this purpose (not Qt) and all fields are compared with the inputs. Not a proof; values are bounded to depth 3 and strings to 400 characters.",
     level_note="Trusted: harness/common/minijson.h and jsonval.h.",
 )
+
+PROPS["C18"] = dict(
+    harness="rc_sentry",
+    builds=[dict(harness="rc_sentry")],
+    engine="rc",
+    env={"TZ": "Asia/Kathmandu"},
+    level="exploration",
+    quick=dict(cases=8000, shards=2, max_size=100, timeout=900),
+    thorough=dict(cases=60000, shards=16, max_size=200, timeout=3000),
+    rule="case = message (5 types; text over all Unicode classes incl. null, 30% of length 95..105 units with astral characters around unit 100; "
+    "category null/\"\"/\"default\"/printable ASCII; file/function printable ASCII or null) + 0..9 attributes mixing the eight routed names "
+    "(string values), the extra-slot names line/file/thread_id/app_name, and arbitrary names with string/number/bool/list/map values; "
+    "SDK name/version from all classes. Every event is formatted twice (fresh id) and all ids of the run must be pairwise distinct. "
+    "The process runs with TZ=Asia/Kathmandu (+05:45) so UTC is distinguishable from local time. Non-trivial = a routed and an arbitrary "
+    "attribute together, or a text around 100 units with astral characters; distinct = canonical JSON.",
+    assumptions=[
+        "'first 100 characters' accepted as 100 UTF-16 units (a split surrogate may be dropped or become U+FFFD) or as 100 code points",
+        "routed attribute names carry string values (what AppInfoAttrs/SysInfoAttrs/HostInfoAttrs produce)",
+        "timestamp may carry fractional seconds; designator Z or +00:00",
+        "sdk, culprit, platform, contexts.runtime, tags.qt_version only need to keep the JSON valid",
+    ],
+    floors={"routed_and_arbitrary_attribute": 0.1, "text_around_100_units_with_astral": 0.15},
+    technique="property-based testing (rapidcheck): generated messages/attribute sets, event parsed by an independent strict JSON parser, field obligations from the statement; id uniqueness over the run",
+    level_text="Generated search with field-by-field obligations checked on an independently parsed event; id uniqueness over all events of a run (16k quick, 1.9M thorough). Not a proof.",
+    level_note="Trusted: harness/common/minijson.h; obligations in harness/rc_sentry.cpp.",
+)
